@@ -2715,11 +2715,280 @@ def forms_result_mutation(ctx: Ctx):
             ctx.witness("raises", f"{type(e).__name__}: {e}", inp)
 
 
+# ---------------------------------------------------------------------------
+# SIZE thresholds: operators with 0, 1, 2, 63-65, 127-129, 255-257, 511-513, 1023-1025, 1500, 2047-2049, 4097 distinct terms (and
+# labels with that many factors) through every operation whose cost grows with the term count, judged by the exact oracle.
+# ---------------------------------------------------------------------------
+SIZE_LADDER = [0, 1, 2, 63, 64, 65, 127, 128, 129, 255, 256, 257, 511, 512, 513, 1023, 1024, 1025, 1500, 2047, 2048, 2049, 4097]
+
+
+def size_operator_terms(k: int, nq: int, sub_seed: int):
+    """deterministic list of k distinct Pauli strings on nq qubits with small Gaussian-integer coefficients:
+    [(pairs, (re, im))], reproducible from (k, nq, sub_seed) alone"""
+    import random
+
+    r = random.Random(f"C05-size:{k}:{nq}:{sub_seed}")
+    codes = r.sample(range(4**nq), k)
+    out = []
+    for code in codes:
+        ps = []
+        for q in range(nq):
+            o = (code >> (2 * q)) & 3
+            if o:
+                ps.append((q, o))
+        c = (0, 0)
+        while c == (0, 0):
+            c = (r.randint(-5, 5), r.choice([0, 0, r.randint(-3, 3)]))
+        out.append((ps, c))
+    return out
+
+
+def _qubits_for(k: int) -> int:
+    nq = 1
+    while 4**nq < max(k, 1):
+        nq += 1
+    return nq
+
+
+def forms_sizes(ctx: Ctx):
+    from quri_parts.core.operator import (
+        Operator,
+        PauliLabel,
+        commutator,
+        get_sparse_matrix,
+        pauli_label,
+        pauli_product,
+        transition_amp_comp_basis,
+        transition_amp_representation,
+    )
+    from quri_parts.core.operator.representation import pauli_label_to_bsv
+
+    opt = _api(ctx, "quri_parts.core.operator", ["truncate", "is_ops_close", "is_hermitian"])
+    rng = ctx.rng
+    fast_routes = ["set", "ctor", "lists", "tuples", "list", "enum"]
+
+    def build(terms, how):
+        op = Operator()
+        if how == "dict":
+            return Operator({build_label(rng, ps, rng.choice(fast_routes)): py_scalar(rng, c) for ps, c in terms})
+        if how == "pairs":
+            return Operator([(build_label(rng, ps, rng.choice(fast_routes)), py_scalar(rng, c)) for ps, c in terms])
+        for ps, c in terms:
+            l = build_label(rng, ps, rng.choice(fast_routes))
+            if how == "add_term":
+                op.add_term(l, py_scalar(rng, c))
+            else:
+                op[l] = py_scalar(rng, c)
+        return op
+
+    def as_ref(op):
+        out = {}
+        for l, c in op.items():
+            out[frozenset(canon_label(l))] = gauss(c)
+        return out
+
+    def judge(key, what, got_op, want: "ref.Ref", spec, zero_free=True):
+        g = as_ref(got_op)
+        if zero_free:
+            ok = g == dict(want)
+        else:
+            ok = {l: c for l, c in g.items() if c != (0, 0)} == dict(want)
+        if not ok:
+            miss = [l for l in want if l not in g]
+            extra = [l for l in g if l not in want and g[l] != (0, 0)]
+            wrong = [l for l in want if l in g and g[l] != want[l]]
+            ctx.witness(key, f"{what} on an operator with {spec['n_terms']} terms differs from the exact result", spec,
+                        {"result_terms": len(g), "exact_terms": len(want), "missing": [enc_pairs(sorted(l)) for l in miss[:3]],
+                         "extra": [enc_pairs(sorted(l)) for l in extra[:3]],
+                         "wrong_coefficient": [f"{enc_pairs(sorted(l))}: {g[l]} vs {want[l]}" for l in wrong[:3]]})
+        return ok
+
+    # which sizes: linear-cost operations see the whole ladder in both tiers; the export (about 1 ms per term and format) sees the ladder
+    # sparsely in the quick tier: one size past every power-of-two boundary up to 1024, plus one of the sizes beyond
+    if ctx.quick():
+        export_sizes = [0, 1, 2, rng.choice([63, 64, 65]), 129, 257, 1025, rng.choice([1500, 1500, 2047, 2049])]
+    else:
+        export_sizes = list(SIZE_LADDER)
+    for k in SIZE_LADDER:
+        nq = _qubits_for(k)
+        if k <= 257 and rng.random() < 0.5:
+            nq += 1
+        sub = rng.randrange(10**6)
+        terms = size_operator_terms(k, nq, sub)
+        how = rng.choice(["dict", "pairs", "add_term", "setitem"])
+        spec = {"n_terms": k, "n_qubits": nq, "operator": f"harness.c05.size_operator_terms({k}, {nq}, {sub})", "built_by": how}
+        ctx.traces += 1
+        ctx.count("size_probe_terms", str(k))
+        budget = 4200 if not ctx.quick() else 2600
+        kc = max(1, min(66, budget // max(k, 1), 4**nq))
+        kc = rng.choice([1, 2, kc]) if k else 3
+        kc = min(kc, 4**nq)
+        cterms = size_operator_terms(kc, nq, sub + 2)
+        kb = rng.choice([0, 1, k // 3, k])
+        pool_codes = size_operator_terms(min(4**nq, kb + 5), nq, sub + 1)[:kb] if kb else []
+        try:
+            a = build(terms, how)
+            ra = ref.Ref.of((ps, c) for ps, c in terms)
+            if not judge("add-term", f"construction ({how})", a, ra, spec):
+                continue
+            if a.n_terms != k or len(a) != k:
+                ctx.witness("n-terms", "n_terms differs from the number of distinct labels inserted", spec, {"n_terms": a.n_terms})
+            # b: half of a's labels (some with exactly opposite coefficients), plus new ones
+            bterms = []
+            for ps, c in terms[: k // 2 + 1]:
+                bterms.append((ps, ref.gneg(c) if rng.random() < 0.5 else rand_coef(rng, False)))
+            seen = {frozenset(ps) for ps, _ in bterms}
+            for ps, c in pool_codes:
+                if frozenset(ps) not in seen:
+                    seen.add(frozenset(ps))
+                    bterms.append((ps, c))
+            rng.shuffle(bterms)
+            b = build(bterms, rng.choice(["dict", "add_term", "setitem"]))
+            rb = ref.Ref.of(bterms)
+            spec2 = dict(spec, b=f"{len(bterms)} terms: the first {k // 2 + 1} labels of a (about half with the opposite coefficient) and "
+                                 f"size_operator_terms(.., {nq}, {sub + 1})[:{kb}], shuffled")
+            judge("add-homomorphism", "a + b", a + b, ra.add(rb), spec2)
+            judge("sub-homomorphism", "a - b", a - b, ra.add(rb, -1), spec2)
+            judge("add-homomorphism", "b + a", b + a, rb.add(ra), spec2)
+            c1 = a.copy()
+            c1 += b
+            judge("iadd", "a += b", c1, ra.add(rb), spec2)
+            c1 -= b
+            judge("isub", "a += b ; a -= b", c1, ra, spec2)
+            c1 = a.copy()
+            c1 -= a.copy()
+            judge("cancel-removes", "a -= copy of a", c1, ref.Ref(), spec)
+            judge("herm", "a.hermitian_conjugated()", a.hermitian_conjugated(), ra.dagger(), spec)
+            kk = rng.choice([(2, 0), (0, 1), (-3, 2), (-1, 0)])
+            judge("smul-homomorphism", f"{kk} * a", py_scalar(rng, kk) * a, ra.smul(kk), spec)
+            judge("smul-homomorphism", f"a * {kk}", a * py_scalar(rng, kk), ra.smul(kk), spec)
+            judge("div", "(4*a) / 4", (a * 4) / rng.choice([4, 4.0]), ra, spec)
+            c1 = a * 2
+            c1 /= 2
+            judge("idiv", "a *= 2 ; a /= 2", c1, ra, spec)
+            judge("copy", "a.copy()", a.copy(), ra, spec)
+            if opt:
+                truncate, is_ops_close, is_hermitian = opt
+                z = a + b
+                z[build_label(rng, [(nq + 1, 1)], "set")] = 0.0
+                judge("truncate", "truncate(a + b with one explicit zero)", truncate(z), ra.add(rb), spec2)
+                thr = 3
+                keep = ref.Ref({l: c for l, c in ra.items() if c[0] ** 2 + c[1] ** 2 >= thr * thr})
+                judge("truncate", f"truncate(a, {thr})", truncate(a, thr), keep, spec)
+                if not is_ops_close(a, a.copy()) or (k and is_ops_close(a, a + Operator({build_label(rng, terms[-1][0], 'set'): 1}))):
+                    ctx.witness("is-ops-close", "is_ops_close(a, copy of a) is False, or True after the last term was changed by 1", spec)
+                hh = a + a.hermitian_conjugated()
+                if not is_hermitian(hh) or bool(is_hermitian(a)) != (ra == ra.dagger()):
+                    ctx.witness("is-hermitian", "is_hermitian disagrees with the exact conjugate", spec)
+            # products on moderately sized inputs: |a| * |c| <= about 4200
+            cop, rc = build(cterms, "dict"), ref.Ref.of(cterms)
+            spec3 = dict(spec, c=f"harness.c05.size_operator_terms({kc}, {nq}, {sub + 2})")
+            if k * kc <= budget + 100:
+                judge("mul-homomorphism", "a * c", a * cop, ra.mul(rc), spec3)
+                judge("mul-homomorphism", "c * a", cop * a, rc.mul(ra), spec3)
+                if k * kc <= budget // 2:
+                    judge("commutator", "commutator(a, c)", commutator(a, cop), ra.mul(rc).add(rc.mul(ra), -1), spec3)
+            # transition amplitudes: sampled entries against the definition
+            if k:
+                rep = transition_amp_representation(a)
+                for _ in range(12):
+                    m = rng.randrange(1 << nq)
+                    ps0 = rng.choice(terms)[0]
+                    n = m
+                    for i, o in ps0:
+                        if o in (1, 2):
+                            n ^= 1 << i
+                    want = (0, 0)
+                    for ps, c in terms:
+                        e = ref.label_entry(ps, m, n)
+                        if e != (0, 0):
+                            want = ref.gadd(want, ref.gmul(c, e))
+                    got = gauss(transition_amp_comp_basis(rep, m, n))
+                    if got != want:
+                        ctx.witness("transition-amp", f"transition_amp_comp_basis differs from <m|O|n> on an operator with {k} terms",
+                                    dict(spec, m=m, n=n), {"got": str(got), "want": str(want)})
+                        break
+            # the export
+            if k in export_sizes:
+                A = ref.op_matrix([(tuple(sorted(ps)), c) for ps, c in terms], nq)
+                if k <= 2 or (k <= 300 and not ctx.quick()):
+                    fl = [None, rng.choice(["csr", "coo", "lil", "dok", "bsr", "dia"])]
+                elif k <= 300:
+                    fl = [rng.choice([None, "csr", "coo", "lil", "dok", "bsr", "dia"])]
+                elif ctx.quick():
+                    fl = [rng.choice([None, "csc", "csr", "coo"])]
+                else:
+                    fl = [None, rng.choice(["csr", "coo", "lil", "dok", "bsr", "dia"])] if k <= 2049 else [rng.choice([None, "coo"])]
+                for fmt in fl:
+                    infer = k > 0 and rng.random() < 0.3 and any(i == nq - 1 for ps, _ in terms for i, _ in ps)
+                    ctx.count("size_probe_export", f"{k} {fmt}")
+                    try:
+                        if fmt is None:
+                            mtx = get_sparse_matrix(a) if infer else get_sparse_matrix(a, nq)
+                        else:
+                            mtx = get_sparse_matrix(a, None if infer else nq, fmt)
+                        arr = mtx.toarray()
+                    except Exception as e:  # noqa: BLE001
+                        if k == 0 and infer:
+                            continue
+                        ctx.witness("raises", f"get_sparse_matrix raises {type(e).__name__}: {e}", dict(spec, format=fmt))
+                        continue
+                    dim = 1 << nq
+                    if arr.shape != (dim, dim):
+                        if k == 0:
+                            continue
+                        ctx.witness("sparse-export", f"export of an operator with {k} terms has shape {arr.shape}", dict(spec, format=fmt))
+                        continue
+                    bad = None
+                    rows = arr.tolist()
+                    for mi in range(dim):
+                        for ni in range(dim):
+                            if gauss(rows[mi][ni]) != A[mi][ni]:
+                                bad = (mi, ni, rows[mi][ni], A[mi][ni])
+                                break
+                        if bad:
+                            break
+                    if bad:
+                        # which prefix of the term list explains what was exported (dropped tail / dropped block)?
+                        ctx.witness("sparse-export", f"get_sparse_matrix of an operator with {k} distinct terms differs from the sum of the term matrices",
+                                    dict(spec, format=fmt, n_qubits_argument=None if infer else nq),
+                                    {"entry": [bad[0], bad[1]], "got": str(bad[2]), "exact": str(bad[3])})
+        except Exception as e:  # noqa: BLE001
+            ctx.witness("raises", f"size probe raises {type(e).__name__}: {e}", spec)
+
+    # labels with many factors
+    for k in [1, 2, 31, 32, 33, 63, 64, 65, 127, 128, 129, 257] + ([] if ctx.quick() else [511, 513, 1025]):
+        try:
+            ids = [rng.randint(1, 3) for _ in range(k)]
+            idx = rng.sample(range(k + 5), k)
+            ps = list(zip(idx, ids))
+            qs = [(i, rng.randint(1, 3)) for i in rng.sample(range(k + 5), max(1, k - 1))]
+            inp = {"factors": k, "p": enc_pairs(sorted(ps))[:200], "q": enc_pairs(sorted(qs))[:200]}
+            ctx.traces += 1
+            labs = [build_label(rng, ps, r) for r in ["set", "lists", "str", "provider", "pickle", "dictitems"]]
+            if any(l != labs[0] or hash(l) != hash(labs[0]) or canon_label(l) != tuple(sorted(ps)) for l in labs):
+                ctx.witness("label-eq", f"a label with {k} factors built through different routes is not equal / hash-equal", inp)
+            if pauli_label(str(labs[0])) != labs[0] or len(str(labs[0]).split()) != k:
+                ctx.witness("str-roundtrip", f"the string form of a label with {k} factors does not round-trip", inp)
+            r, ph = pauli_product(labs[0], build_label(rng, qs, "set"))
+            wl, we = ref.label_mul(frozenset(ps), frozenset(qs))
+            if frozenset(canon_label(r)) != wl or gauss(ph) != ref.I_UNIT[we]:
+                ctx.witness("pauli-product", f"product of labels with {k} and {len(qs)} factors differs from the factor-wise product", inp,
+                            {"phase": str(ph), "exact_phase": str(ref.I_UNIT[we])})
+            bv = pauli_label_to_bsv(labs[0])
+            ny = sum(1 for o in ids if o == 2)
+            if (int(bv.x), int(bv.z)) != (sum(1 << i for i, o in ps if o in (1, 2)), sum(1 << i for i, o in ps if o in (2, 3))) or gauss(
+                    bv.phase) != ref.I_UNIT[(3 * ny) % 4]:
+                ctx.witness("bsv", f"pauli_label_to_bsv of a label with {k} factors is wrong", inp)
+        except Exception as e:  # noqa: BLE001
+            ctx.witness("raises", f"label size probe raises {type(e).__name__}: {e}", {"factors": k})
+
+
 def check_forms(ctx: Ctx):
     for name, fn in [("operands", forms_operands), ("errors", forms_errors), ("accessors", forms_accessors), ("predicates", forms_predicates),
                      ("operator_str", forms_operator_str), ("commute", forms_commute), ("fresh_results", forms_fresh_results),
                      ("histories", forms_histories), ("big_register", forms_big_register), ("trotter", forms_trotter),
-                     ("exact_range", forms_exact_range), ("bit_exact", forms_bit_exact), ("result_mutation", forms_result_mutation)]:
+                     ("exact_range", forms_exact_range), ("bit_exact", forms_bit_exact), ("result_mutation", forms_result_mutation), ("sizes", forms_sizes)]:
         _section(ctx, name, fn)
 
 
